@@ -28,23 +28,20 @@ func sortKeysOperator(d *dataTreeNavigator, context Context, expressionNode *Exp
 }
 
 func sortKeys(node *CandidateNode) {
-	keys := make([]string, len(node.Content)/2)
-	keyBucket := map[string]*CandidateNode{}
-	valueBucket := map[string]*CandidateNode{}
 	var contents = node.Content
-	for index := 0; index < len(contents); index = index + 2 {
-		key := contents[index]
-		value := contents[index+1]
-		keys[index/2] = key.Value
-		keyBucket[key.Value] = key
-		valueBucket[key.Value] = value
+	// order the entries themselves rather than their key texts: two
+	// keys can have the same text (1 and "1") and must both be kept
+	order := make([]int, len(contents)/2)
+	for index := range order {
+		order[index] = index
 	}
-	sort.Strings(keys)
-	sortedContent := make([]*CandidateNode, len(node.Content))
-	for index := 0; index < len(keys); index = index + 1 {
-		keyString := keys[index]
-		sortedContent[index*2] = keyBucket[keyString]
-		sortedContent[1+(index*2)] = valueBucket[keyString]
+	sort.SliceStable(order, func(i, j int) bool {
+		return contents[order[i]*2].Value < contents[order[j]*2].Value
+	})
+	sortedContent := make([]*CandidateNode, len(contents))
+	for index, from := range order {
+		sortedContent[index*2] = contents[from*2]
+		sortedContent[1+(index*2)] = contents[1+(from*2)]
 	}
 
 	// re-arranging children, no need to update their parent
